@@ -2,6 +2,7 @@
    Gallina program Brotli.Spec.brotli_prog, for every static dictionary
    [dict_byte]; brotli.Reader is tied to it by correspondence on every run
    and both are compared with libbrotli. *)
+From V Require Import Window.Dict Window.DictSpec Window.DictThms Window.DictBr Window.DictBrSpec Window.DictBrThms.
 From V Require Import Base.Prelude Base.Prog Base.ProgThms Brotli.Tables Brotli.Spec Brotli.Thms Brotli.Safe Brotli.Fuel.
 
 (* the decoder looks at its source only bit by bit, in order *)
@@ -50,3 +51,13 @@ Theorem brotli_decoder_total : forall dict input,
   end.
 Proof. exact brotli_decode_total. Qed.
 Print Assumptions brotli_decoder_total.
+
+(* the brotli sliding window (brotli/dict_decoder.go: zeroed on Init, LastBytes; model run
+   against the real one on scripted histories on every run) refines the LZ77 specification for
+   every window size >= 2, every recycled buffer and every protocol-respecting history *)
+Theorem brotli_window_refines_lz77 : forall size recycled ops st0,
+  bsize_ok size -> recycled_ok recycled -> br_init size recycled = Ok st0 -> br_proto st0 ops ->
+  exists obs st' s', br_run st0 ops = (map Ok obs, st') /\
+                     bsp_run (wsp_init size) ops (map Ok obs) = Some s' /\ Inv st' s'.
+Proof. exact br_refines. Qed.
+Print Assumptions brotli_window_refines_lz77.
